@@ -252,6 +252,7 @@ fn op_list_tar(case: &Value) -> Value {
         }
         out.push(json!({
             "path": String::from_utf8_lossy(&p),
+            "path_hex": hex(&p),
             "type": (ty as char).to_string(),
             "size": size,
             "data": if want_data { Value::String(hex(&data)) } else { Value::Null },
